@@ -11,6 +11,9 @@ use crate::{
 /// - variables are assigned before use
 /// - function code paths return values
 /// - commands enter a finish block
+///
+/// Returns `true` if validation FAILED: some check reported a failure, or a trace
+/// could not be completed.
 pub fn validate(module: &Module) -> bool {
     let ModuleData::V0(ref m) = module.data;
     let mut failed = false;
@@ -69,7 +72,7 @@ pub fn validate(module: &Module) -> bool {
             }
             Err(e) => {
                 println!("{e}");
-                return false;
+                return true;
             }
         }
     }
